@@ -213,6 +213,84 @@ for _t in FX.ENTRIES:
     CHECKERS["%s:fault" % _t] = check_fault
     ORACLES["%s:fault" % _t] = gen_fault(_t)
 
+# ----------------------------------------------------------------------------------------
+# separation entry points (signals are not annotations of harness/tasks.py: recipes and helpers of props/c19.py)
+
+def _sep_call(inp):
+    from props import c19 as C19
+    ref, est = C19.make_signals(inp)
+    f = inp.get("fault")
+    if f == "ref-silent-source":
+        ref[inp["src"]] = 0.0
+    elif f == "est-silent-source":
+        est[inp["src"]] = 0.0
+    elif f == "shape-mismatch":
+        est = est[:, :-1]
+    elif f == "four-dimensional":
+        ref, est = ref.reshape(ref.shape + (1,) * (4 - ref.ndim)), est.reshape(est.shape + (1,) * (4 - est.ndim))
+    fn = C19._fn(inp["fn"])
+    args = [inp["window"], inp["hop"]] if inp["fn"].endswith("framewise") else []
+    import warnings
+    with warnings.catch_warnings():
+        warnings.simplefilter("ignore")
+        with C19.forced_flen(inp["flen"]):
+            return fn(ref, est, *args, inp["cp"])
+
+
+def check_separation_valid(inp):
+    """valid signals (every source non-silent over the whole excerpt; single windows may well be silent on either side,
+    which the framewise functions document as NaN frames) are always scored"""
+    try:
+        _sep_call(inp)
+    except Exception as e:  # noqa: BLE001 - the class is the observation
+        return "separation.bss_eval_%s raised %s on valid signals: %s" % (inp["fn"], type(e).__name__, str(e)[:160])
+    return None
+
+
+def check_separation_fault(inp):
+    try:
+        _sep_call(inp)
+    except ValueError:
+        return None
+    except Exception as e:  # noqa: BLE001
+        return "separation.bss_eval_%s: fault %r raised %s instead of ValueError: %s" % (
+            inp["fn"], inp["fault"], type(e).__name__, str(e)[:160])
+    return "separation.bss_eval_%s: fault %r was scored" % (inp["fn"], inp["fault"])
+
+
+def _gen_separation(faulty):
+    def g(rng, tier, shard, nshards, boost):
+        from props import c19 as C19
+        n = (10 if tier == "quick" else 120) * boost
+        for name in ("sources", "images", "sources_framewise", "images_framewise"):
+            images = name.startswith("images")
+            if name.endswith("framewise"):
+                src = C19._gen_framewise(name)(rng, tier, 1, 2, 1)      # shard 1 of 2: the recipes without the fixed extras
+            else:
+                src = (dict(C19._real_recipe(rng, tier, images, real_flen_ok=False), fn=name, cp=rng.random() < 0.5)
+                       for _ in range(n))
+            k = 0
+            for r in src:
+                if k >= n:
+                    break
+                if r.get("flen") == 512 or "window" not in r and name.endswith("framewise"):
+                    continue
+                k += 1
+                r = dict(r, fn=name)
+                r.pop("check", None)
+                if not faulty:
+                    yield r
+                else:
+                    f = rng.choice(["ref-silent-source", "est-silent-source", "shape-mismatch", "four-dimensional"])
+                    yield dict(r, fault=f, src=rng.randrange(r["nsrc"]), silent=[])
+    return g
+
+
+CHECKERS["separation:valid"] = check_separation_valid
+ORACLES["separation:valid"] = _gen_separation(False)
+CHECKERS["separation:fault"] = check_separation_fault
+ORACLES["separation:fault"] = _gen_separation(True)
+
 from suites import validators as _V  # noqa: E402
 for _k, _v in _V.CHECKERS.items():
     CHECKERS["validator:" + _k] = _v
